@@ -1235,4 +1235,43 @@ theorem proxyOnColumn_unreadable (c : CryptoOps) (cfg : PoisonCfg) (kv : KeyView
       subst ho
       rw [h2 x _ hx hne] at hpo; cases hpo
 
+
+/-! ## small facts for the non-vacuity examples -/
+
+theorem createPoison_block_eq (c : CryptoOps) (pk : KeyView) (key : Bytes) (n : Nat) (rnd b : Bytes)
+    (hk : pk.sym = some key) (hb : createBlock c key [] (rnd.take n) (rnd.drop n) = .ok b) :
+    createPoison c pk .block n rnd = serialize b idBlock := by
+  unfold createPoison
+  simp only [hk, hb]
+  rfl
+
+theorem createPoison_struct_eq (c : CryptoOps) (pk : KeyView) (pub : Bytes) (n : Nat) (rnd b : Bytes)
+    (hk : pk.pub = some pub) (hb : createStruct c pub [] (rnd.take n) (rnd.drop n) = .ok b) :
+    createPoison c pk .struct n rnd = serialize b idStruct := by
+  unfold createPoison
+  simp only [hk, hb]
+  rfl
+
+/-- a client without keys decrypts nothing through `DecryptWithHandler` -/
+theorem decryptWithHandler_no_keys (c : CryptoOps) (kv : KeyView) (hp : kv.privs = none) (hs : kv.syms = none)
+    (k : Kind) (d m : Bytes) : decryptWithHandler c kv k d ≠ .ok m := by
+  intro h
+  unfold decryptWithHandler at h
+  cases hd : deserialize d with
+  | panic => rw [hd] at h; cases h
+  | err => rw [hd] at h; cases h
+  | ok q =>
+    obtain ⟨i, id⟩ := q
+    rw [hd] at h
+    simp only [Out.bind_ok] at h
+    split at h
+    · cases h
+    · cases k with
+      | block =>
+        obtain ⟨_, _, _, ks, hks, _⟩ := decryptKind_block_ok h
+        rw [hs] at hks; cases hks
+      | struct =>
+        obtain ⟨ps, hps, _⟩ := decryptKind_struct_ok h
+        rw [hp] at hps; cases hps
+
 end AcraModel.Envelope
